@@ -82,6 +82,7 @@ type gsim struct {
 	targeted    bool                   // targeted split-vote attack run
 	crashes     bool                   // crash-restarts of honest voters enabled in this run
 	offEstimate bool                   // some honest voter prevoted off the chain of its last round's estimate
+	setChanges  bool                   // C18 runs: the authority set really changes (Byzantine keys are removed); applied in every node's GRANDPA state, picked up at its next round
 	authChanges bool                   // some blocks announce a scheduled authority change (same voters), which caps precommits
 	chg         map[common.Hash]uint32 // announcing block -> delay
 	real        bool                   // the real finalisation.go goroutines and the vote tracker drive the rounds (real.go)
@@ -109,7 +110,8 @@ type gnode struct {
 	signed       map[[3]uint64]common.Hash
 	lastEst      *cu.RefBlock // model: estimate of the round the node left last (nil: none)
 	lastEstRound uint64
-	amnesiac     bool // signed two different votes in one round after a restart wiped its memory
+	amnesiac     bool             // signed two different votes in one round after a restart wiped its memory
+	sets         map[uint64][]int // authority set (voter indexes) per set id, as stored in this node's GRANDPA state
 	restarted    bool
 	excusedRound uint64 // highest round this voter had signed a vote in when it was last restarted
 	// real round driver mode (real.go)
@@ -257,6 +259,16 @@ func (n *gnode) open(fresh bool) {
 			}
 		}
 	}
+	if n.sets == nil {
+		all := make([]int, s.n)
+		for i := range all {
+			all[i] = i
+		}
+		n.sets = map[uint64][]int{0: all}
+	}
+	if s.setChanges {
+		n.disk.OnRead = func([]byte) error { n.seamInsideUpdateAuthorities(); return nil }
+	}
 	n.fin = head.Hash()
 	n.phase = 0
 	n.lastEst = nil
@@ -272,6 +284,29 @@ func (n *gnode) resetModel(round uint64) {
 }
 
 func (s *gsim) threshold2of3(count int) bool { return 3*count > 2*s.n }
+
+// curSet: the authority set of the set id the node's service is in.
+func (n *gnode) curSet() []int {
+	if set, ok := n.sets[n.svc.VerifSetID()]; ok {
+		return set
+	}
+	all := make([]int, n.s.n)
+	for i := range all {
+		all[i] = i
+	}
+	return all
+}
+
+func (n *gnode) isAuthNow(id ed25519.PublicKeyBytes) bool {
+	for _, i := range n.curSet() {
+		if pkb(n.s.keys[i]) == id {
+			return true
+		}
+	}
+	return false
+}
+
+func (n *gnode) supermajorityNow(count int) bool { return 3*count > 2*len(n.curSet()) }
 
 // ---- block tree -----------------------------------------------------------
 
